@@ -714,7 +714,8 @@ Interpolation Perform_KDE(std::vector<DataPoint> data, double xMin, double xMax,
 	Interpolation result(Interpol_List);
 
 	// 3. Check normalization/ re-normalize.
-	double norm = Integrate(result, xMin, xMax, 1e-8);
+	// The tabulated estimate is a piecewise cubic, whose integral is known exactly. (An adaptive quadrature with an error estimate is not needed, and its estimate is not a bound for a function with kinks in its higher derivatives.)
+	double norm = result.Integrate(xMin, xMax);
 	result.Multiply(1.0 / norm);
 
 	return result;
